@@ -514,3 +514,26 @@ func singletonSlice(v ssa.Value) bool {
 }
 
 var _ = strings.HasPrefix
+
+// probeJ6 (debug): ordered comparisons of two non-constant 16-bit unsigned values.
+func probeJ6(p *Prog) {
+	for _, fn := range p.Funcs {
+		instrsOf(fn, func(in ssa.Instruction) {
+			bo, ok := in.(*ssa.BinOp)
+			if !ok || (bo.Op != token.LSS && bo.Op != token.LEQ && bo.Op != token.GTR && bo.Op != token.GEQ) {
+				return
+			}
+			bt, ok := bo.X.Type().Underlying().(*types.Basic)
+			if !ok || bt.Info()&types.IsUnsigned == 0 || intBits(bt) != 16 {
+				return
+			}
+			if _, c := p.origin(bo.X).(*ssa.Const); c {
+				return
+			}
+			if _, c := p.origin(bo.Y).(*ssa.Const); c {
+				return
+			}
+			fmt.Printf("%s  %s: %s %s %s\n", p.instrPos(bo), funcKey(fn), shortExpr(p, bo.X), bo.Op, shortExpr(p, bo.Y))
+		})
+	}
+}
